@@ -18,6 +18,45 @@ package http2utils
 //@ pure
 //@ ensures value: r0 == b[0]*65536 + b[1]*256 + b[2]
 
+//@ func Uint32ToBytes
+//@ props C05
+//@ requires room: len(b) >= 4
+//@ modifies contents(b)
+//@ ensures bytes: b[0] == (n >> 24) % 256 && b[1] == (n >> 16) % 256 && b[2] == (n >> 8) % 256 && b[3] == n % 256
+//@ ensures rest: forall(i, 4, len(b), b[i] == old(b)[i])
+
+//@ func BytesToUint32
+//@ props C05 C16
+//@ requires room: len(b) >= 4
+//@ pure
+//@ ensures value: r0 == b[0]*16777216 + b[1]*65536 + b[2]*256 + b[3]
+
+//@ func AppendUint32Bytes
+//@ props C05
+//@ modifies contents(dst)
+//@ ensures len: len(r0) == len(dst) + 4
+//@ ensures keep: forall(i, 0, len(dst), r0[i] == old(dst)[i])
+//@ ensures bytes: r0[len(dst)] == (n >> 24) % 256 && r0[len(dst)+1] == (n >> 16) % 256 &&
+//@ |   r0[len(dst)+2] == (n >> 8) % 256 && r0[len(dst)+3] == n % 256
+//@ ensures place: len(dst) + 4 <= cap(dst) ==> samearray(r0, dst) && offset(r0) == offset(dst) && cap(r0) == cap(dst)
+//@ ensures fresh: len(dst) + 4 > cap(dst) ==> fresh(r0)
+
+//@ func Resize
+//@ props C05 C16
+//@ requires nonneg: neededLen >= 0
+//@ modifies contents(b)
+//@ ensures len: len(r0) == neededLen
+//@ ensures keep: forall(i, 0, min(len(b), neededLen), r0[i] == old(b)[i])
+//@ ensures place: neededLen <= cap(b) ==> samearray(r0, b) && offset(r0) == offset(b) && cap(r0) == cap(b)
+//@ ensures fresh: neededLen > cap(b) ==> fresh(r0)
+
+//@ func AddPadding
+//@ props C05
+//@ modifies contents(b)
+//@ ensures padlen: r0[0] >= 9 && r0[0] <= 255 && len(r0) == len(b) + r0[0] + 1
+//@ ensures data: forall(i, 0, len(b), r0[i+1] == old(b)[i])
+//@ ensures zero: forall(i, len(b) + 1, len(r0), r0[i] == 0)
+
 //@ func CutPadding
 //@ props C01 C05 C16
 //@ ensures ok: r1 == nil ==> length >= 1 && length <= len(payload) && payload[0] < length &&
@@ -30,3 +69,8 @@ package http2utils
 //@ trusted
 //@ pure
 //@ ensures nonnil: r0 != nil
+
+//@ func fastrand.Uint32n
+//@ trusted
+//@ pure
+//@ ensures below: r0 < maxN
